@@ -62,11 +62,11 @@ class C09(Prop):
             extra = []
             if rng.random() < 0.35:
                 # other in-gamut targets fitted in the same call (our target first), with their own L1 requests, batched
-                for _ in range(rng.randint(1, 2)):
+                for _ in range(rng.choice([1, 2, 2, 4, 6])):
                     g2 = gs.gen_target_regime(rng, sys, "inside")
                     if g2 is not None:
                         extra.append({"b": np.asarray(g2[1]).tolist(), "l1": float(np.sum(g2[2]))})
-            cases.append({"extra": extra, "batch": (rng.choice([1, 2, "full"]) if extra else 1),
+            cases.append({"extra": extra, "batch": (rng.choice([1, 2, 3, 4, "full", len(extra) + 2]) if extra else 1), "row": (rng.randint(0, len(extra)) if extra else 0),
                           "sys": {k: (v.tolist() if isinstance(v, np.ndarray) else v) for k, v in sys.items()}, "b": np.asarray(b).tolist(),
                           "w": [1.0] * m if rng.random() < 0.5 else [rng.randint(2, 8) / 4 for _ in range(m)],
                           "ek": ek, "Eps": Eps, "sigma": sigma, "l1": l1, "l1_eps": 1e-2, "l2_eps": rng.choice([1e-4, 1e-3, 1e-2]), "tk": kind,
@@ -82,17 +82,20 @@ class C09(Prop):
         kw = dict(HI)
         Bin = np.asarray(case["b"])[None]
         extra = case.get("extra") or []
+        row = case.get("row", 0)
         if extra:
-            Bin = np.vstack([Bin] + [np.asarray(e["b"])[None] for e in extra])
+            rows_ = [np.asarray(e["b"])[None] for e in extra]; rows_.insert(row, Bin)      # the judged target sits at a random position of the call
+            Bin = np.vstack(rows_)
             kw["batch_size"] = case["batch"]
         if case["l1"] is not None:
-            kw.update(L1=(np.array([case["l1"]] + [e["l1"] for e in extra]) if extra else case["l1"]), l1_eps=case["l1_eps"])
+            l1s = [e["l1"] for e in extra]; l1s.insert(row, case["l1"])
+            kw.update(L1=(np.array(l1s) if extra else case["l1"]), l1_eps=case["l1_eps"])
         Eps = None if case["Eps"] is None else np.array(case["Eps"])
         # warm-up with another tolerance on the same object: must leave no trace (also exercises "asked twice")
         gs.warm(lambda: est.minimize_variance(Bin, Epsilon=Eps, l2_eps=(1e-2 if case["l2_eps"] < 1e-3 else 1e-5), **kw))
         X, Bp, Bv = est.minimize_variance(Bin, Epsilon=Eps, l2_eps=case["l2_eps"], **kw)
         Xo, Bo = est.fit(np.asarray(case["b"])[None], **HI)
-        return {"X": np.asarray(X, dtype=float)[0].tolist(), "Bpred": np.asarray(Bp, dtype=float)[0].tolist(), "Bvar": np.asarray(Bv, dtype=float)[0].tolist(),
+        return {"X": np.asarray(X, dtype=float)[row].tolist(), "Bpred": np.asarray(Bp, dtype=float)[row].tolist(), "Bvar": np.asarray(Bv, dtype=float)[row].tolist(),
                 "X_ordinary": np.asarray(Xo, dtype=float)[0].tolist(),
                 "Eps_attr": (None if isinstance(est.Epsilon, str) else np.asarray(est.Epsilon, dtype=float).tolist())}
 
